@@ -103,6 +103,16 @@ pub fn gen_trap(c: &mut Choices) -> TrapCase {
         let mut mark: usize = 0; // index in body of the interesting line
         if failing {
             body.push("let a: Int64 = 10;".into());
+            // a generated number of statements that neither trap nor call: the machine-code length of the failing
+            // function (and with it alignment padding and what follows its last slow path) varies from case to case
+            let fillers = c.below(14);
+            for j in 0..fillers {
+                match (j + uid) % 3 {
+                    0 => body.push(format!("let f{j}: Bool = z == {j};")),
+                    1 => body.push(format!("let f{j}: Int64 = z;")),
+                    _ => body.push(format!("let f{j}: Bool = z > a;")),
+                }
+            }
             match op {
                 "div0" => body.push("let r: Int64 = a / z;".into()),
                 "mod0" => body.push("let r: Int64 = a % z;".into()),
@@ -124,7 +134,8 @@ pub fn gen_trap(c: &mut Choices) -> TrapCase {
                     body.push("let r: Int64 = arr(0);".into());
                 }
                 "assert" => {
-                    body.push("assert(z < a - 6);".into());
+                    // with and without another (checked-arithmetic) slow path in the same function
+                    body.push(c.pick_str(&["assert(z < a - 6);", "assert(z < 3);", "assert(z == 0);", "assert(z > a);"]).to_string());
                     mark = body.len() - 1;
                     body.push("let r: Int64 = a;".into());
                 }
@@ -139,7 +150,8 @@ pub fn gen_trap(c: &mut Choices) -> TrapCase {
             if mark == 0 {
                 mark = body.len() - 1;
             }
-            body.push("r + 1".into());
+            // with or without a trailing checked addition (i.e. with or without a second slow path behind the failing one)
+            body.push(c.pick_str(&["r + 1", "r", "r + 1", "a"]).to_string());
         } else {
             for p in &pre_lines[i + 1] {
                 body.push(p.clone());
